@@ -1,6 +1,71 @@
+(* C34 — Staggered DNS lookups never panic and return the first success.
+   This file holds ONLY the property theorems; each is closed by `exact`. *)
 From V Require Import Lib.Base Lib.MachineInt Model.C34 Proofs.C34.
 Import C34.
 Open Scope N_scope.
-Theorem C34_jitter_total_refuted : exists d r, add_jitter d r = Panic.
-Proof. exact jitter_total_refuted. Qed.
-Print Assumptions C34_jitter_total_refuted.
+
+(* add_jitter never panics, for every delay and every random value
+   (false before the fix: delays 1 and 2 gave rand % 0). *)
+Theorem C34_jitter_total : forall d r, add_jitter d r <> Panic.
+Proof. exact jitter_total. Qed.
+Print Assumptions C34_jitter_total.
+
+(* The jittered delay is within +/-20% of the delay and fits a u64, for every u64
+   delay (including those where delay*40 or the final sum saturates). *)
+Theorem C34_jitter_bounds : forall d r t,
+  d <= U64_MAX -> add_jitter d r = Ok t ->
+  4 * d <= 5 * t /\ 5 * t <= 6 * d /\ t <= U64_MAX.
+Proof. exact jitter_bounds. Qed.
+Print Assumptions C34_jitter_bounds.
+
+(* The first attempt (delay 0) starts immediately. *)
+Theorem C34_jitter_zero : forall r, add_jitter 0 r = Ok 0.
+Proof. exact jitter_zero. Qed.
+Print Assumptions C34_jitter_zero.
+
+(* Delays too small to jitter are used unchanged. *)
+Theorem C34_jitter_small : forall d r, 1 <= d <= 2 -> add_jitter d r = Ok d.
+Proof. exact jitter_small. Qed.
+Print Assumptions C34_jitter_small.
+
+(* The set the correspondence check accepts for an observed jitter is exactly
+   the set of values the model can produce. *)
+Theorem C34_admissible_is_range : forall d t,
+  d <= U64_MAX -> (admissible d (Ok t) = true <-> exists r, add_jitter d r = Ok t).
+Proof. exact admissible_iff. Qed.
+Print Assumptions C34_admissible_is_range.
+
+(* stagger_call returns Ok v exactly when, in completion order, an attempt with
+   Ok v is preceded only by failed attempts. *)
+Theorem C34_first_ok_wins : forall outs v,
+  stagger_result outs = SOk v <->
+  exists pre post, outs = pre ++ Ok v :: post /\ Forall (fun o => exists e, o = Err e) pre.
+Proof. exact first_ok_wins. Qed.
+Print Assumptions C34_first_ok_wins.
+
+(* stagger_call returns an error exactly when every attempt failed, and the
+   error then carries every attempt's error, in completion order. *)
+Theorem C34_all_errors_collected : forall outs es,
+  stagger_result outs = SErr es <-> outs = map Err es.
+Proof. exact all_errors_collected. Qed.
+Print Assumptions C34_all_errors_collected.
+
+(* In the timed model (all delay lists, all random values, all scripts and
+   timeouts) the lookup does not panic, the first attempt starts at time 0,
+   there are at most |delays|+1 resolver calls, in time order, each within
+   +/-20% of one of the delays. *)
+Theorem C34_attempts_start_in_window : forall timeout H delays script rs,
+  forallb (fun d => d <=? U64_MAX) delays = true ->
+  exists calls sr, model_S timeout H delays script rs = Ok (calls, sr) /\
+                   calls_ok (all_delays delays) calls = true.
+Proof. exact model_calls_ok. Qed.
+Print Assumptions C34_attempts_start_in_window.
+
+(* Full statement:  forall i rs, monitor i (model i rs) = true.
+   Proved here for the add_jitter inputs (J); for the staggered-lookup inputs (S)
+   the start-time half of the monitor is C34_attempts_start_in_window and the
+   result half (result_ok on the model's own calls) is not proved, see notes. *)
+Theorem C34_model_satisfies_monitor_partial : forall d k rs,
+  monitor (J d k) (model (J d k) rs) = true.
+Proof. exact model_monitor_J. Qed.
+Print Assumptions C34_model_satisfies_monitor_partial.
